@@ -617,7 +617,7 @@ impl Property for C05 {
     type Case = Case;
     const ID: &'static str = "C05";
     fn cases(tier: Tier) -> u64 {
-        tier.pick(300_000, 12_000_000)
+        tier.pick(1_000_000, 16_000_000)
     }
     fn strategy(_tier: Tier) -> BoxedStrategy<Case> {
         let bytes = (
